@@ -46,25 +46,30 @@ Proof.
   destruct (sva_generic_min h wh roots fi select_none search cycles total sup Hs Hpw Hr Hci Hsel Hmin Hrun)
     as (Hmcb & _ & _).
   pose proof (inv_len _ _ _ _ _ _ I) as Il. pose proof (inv_lenC _ _ _ _ _ _ I) as Ic.
+  assert (HlS : forall k, k < fi_csd fi -> k < length sup) by (intros k Hk; eapply Nat.lt_le_trans; [exact Hk|]; apply Nat.eq_le_incl; symmetry; exact Il).
+  assert (HlC : forall k, k < fi_csd fi -> k < length cycles) by (intros k Hk; eapply Nat.lt_le_trans; [exact Hk|]; apply Nat.eq_le_incl; symmetry; exact Ic).
   assert (Hbr : forall k D, k < fi_csd fi -> simple_cycle h D ->
             pairing fi (nth k sup []) D = oddb (indices_to_edges fi (nth k sup [])) D).
   { intros k D Hk HD. destruct (sva_inv_row fi Z search _ _ _ k I Hk) as (HS & _ & HB).
     destruct (rf_simple_cycle_edges h D HD) as (HDs & HDb).
     eapply rf_bridge; eauto. }
   assert (Hsc : forall j, j < fi_csd fi -> simple_cycle h (nth j cycles [])).
-  { intros j Hj. destruct Hmcb as ((HF & _) & _). rewrite Forall_forall in HF. apply HF, nth_In. rewrite Ic. exact Hj. }
+  { intros j Hj. destruct Hmcb as ((HF & _) & _). rewrite Forall_forall in HF. apply HF, nth_In, HlC, Hj. }
   exists (map (indices_to_edges fi) sup), cycles.
-  split; [rewrite map_length; lia|]. split; [|split; [|exact Hmcb]].
-  - intros k Hk. rewrite Ic in Hk.
-    rewrite (ag_nth_map_lt (indices_to_edges fi) sup k [] []) by lia.
+  split.
+  { rewrite map_length. transitivity (fi_csd fi); [exact Il|symmetry; exact Ic]. }
+  split; [|split; [|exact Hmcb]].
+  - intros k Hk0. assert (Hk : k < fi_csd fi) by (eapply Nat.lt_le_trans; [exact Hk0|apply Nat.eq_le_incl; exact Ic]).
+    rewrite (ag_nth_map_lt (indices_to_edges fi) sup k [] []) by (apply HlS; exact Hk).
     destruct (inv_found _ _ _ _ _ _ I k Hk) as (wk & Hsr).
     destruct (Hmin _ _ _ _ Hsr) as ((H1 & H2 & H3) & _).
     split; [exact H1|]. split.
-    + rewrite <- (Hbr k _ Hk H1). exact H2.
-    + intros D HD HoD. apply H3; [exact HD|]. rewrite (Hbr k D Hk HD). exact HoD.
-  - intros j k Hjk Hk. rewrite Ic in Hk.
-    rewrite (ag_nth_map_lt (indices_to_edges fi) sup k [] []) by lia.
-    rewrite <- (Hbr k _ Hk (Hsc j ltac:(lia))).
+    + exact (eq_trans (eq_sym (Hbr k _ Hk H1)) H2).
+    + intros D HD HoD. apply H3; [exact HD|]. exact (eq_trans (Hbr k D Hk HD) HoD).
+  - intros j k Hjk Hk0. assert (Hk : k < fi_csd fi) by (eapply Nat.lt_le_trans; [exact Hk0|apply Nat.eq_le_incl; exact Ic]).
+    rewrite (ag_nth_map_lt (indices_to_edges fi) sup k [] []) by (apply HlS; exact Hk).
+    assert (Hj : j < fi_csd fi) by lia.
+    refine (eq_trans (eq_sym (Hbr k _ Hk (Hsc j Hj))) _).
     apply (inv_low _ _ _ _ _ _ I); lia.
 Qed.
 
